@@ -93,6 +93,10 @@ Ret(r) ==
             /\ r.b = picked /\ (picked => irq)
             /\ irq' = FALSE /\ UNCHANGED <<chunk, consumed>>
        [] call.op = "send" -> call.sent = TRUE /\ UNCHANGED <<chunk, consumed, irq>>
+       \* embedded-io Write::write: reports how many bytes of the buffer it placed (at least one of
+       \* a non-empty buffer) - exactly those were handed to the device, see DevTxW
+       [] call.op = "write" -> /\ r.n = call.done /\ (call.len > 0 => r.n >= 1)
+                               /\ UNCHANGED <<chunk, consumed, irq>>
        [] OTHER -> FALSE
   /\ call' = None
   /\ UNCHANGED <<written, posted, filled, picked>>
@@ -102,6 +106,16 @@ DevTx(dg, len, rl, wl) ==
   /\ call.op = "send" /\ ~call.sent
   /\ dg = call.dg /\ len = call.len /\ rl = <<call.len>> /\ wl = <<>>
   /\ call' = [call EXCEPT !.sent = TRUE]
+  /\ UNCHANGED <<written, consumed, chunk, posted, filled, irq, picked>>
+
+\* Write::write: one or more chains, each device-readable only, carrying the next bytes of the
+\* caller's buffer (the buffer is position-coded like the input stream, starting at call.start)
+DevTxW(first, len, affine, rl, wl) ==
+  /\ call.op = "write"
+  /\ len >= 1 /\ call.done + len <= call.len
+  /\ first = B(call.start + call.done) /\ affine
+  /\ rl = <<len>> /\ wl = <<>>
+  /\ call' = [call EXCEPT !.done = @ + len]
   /\ UNCHANGED <<written, consumed, chunk, posted, filled, irq, picked>>
 
 \* invariants: nothing lost, duplicated or reordered
